@@ -218,4 +218,104 @@ pub fn replay(args: &[String], out: &mut Out) {
     out.sample(json!({"psets": psets.len(), "tx_classes": classes.len(), "headers": headers.len()}));
 }
 
+fn content_bytes(class: &str, r: &mut Rng, variant: usize) -> Vec<u8> {
+    use rand::Rng as _;
+    let n = [2usize, 8, 34, 66][variant % 4];
+    match class {
+        "random" => pools::rbytes(r, n),
+        "ascii-hex-even" => (0..n).map(|_| b"0123456789abcdefABCDEF"[r.gen_range(0..22)]).collect(),
+        "ascii-hex-odd" => (0..n + 1).map(|_| b"0123456789abcdef"[r.gen_range(0..16)]).collect(),
+        "ascii-text" => (0..n).map(|_| r.gen_range(0x20u8..0x7f)).collect(),
+        "utf8" => "\u{e9}\u{4e2d}\u{1f600}z".repeat(1 + variant % 3).into_bytes(),
+        "zeros" => vec![0u8; n],
+        "empty" => vec![],
+        "single-ff" => vec![0xff],
+        x => panic!("content class {}", x),
+    }
+}
+
+/// Byte-string fields x content classes (SerdeShape.ContentCases).
+pub fn content(args: &[String], out: &mut Out) {
+    use elements::dynafed::{FullParams, Params};
+    use elements::{BlockExtData, BlockHeader, Script};
+    let cases = read_ndjson(&arg(args, "--cases").expect("--cases"));
+    let seed = arg_u64(args, "--seed", 1);
+    let mut r = rng(seed, 0x2020);
+    for c in &cases {
+        out.count("distinct_cases");
+        let (ty, field, class) = (c["ty"].as_str().unwrap(), c["field"].as_str().unwrap(), c["class"].as_str().unwrap());
+        let cls = format!("content/{}.{}/{}", ty, field, class);
+        for variant in 0..4 {
+            let b = content_bytes(class, &mut r, variant);
+            let b2 = content_bytes(class, &mut r, variant + 1);
+            match ty {
+                "TxIn" | "TxOut" | "TxInWitness" => {
+                    let mut tx = psetbuild::small_tx(&mut r);
+                    match field {
+                        "script_sig" => tx.input[0].script_sig = Script::from(b.clone()),
+                        "script_pubkey" => tx.output[0].script_pubkey = Script::from(b.clone()),
+                        "script_witness" => tx.input[0].witness.script_witness = vec![b.clone(), b2.clone(), vec![]],
+                        "pegin_witness" => tx.input[0].witness.pegin_witness = vec![b.clone(), vec![], b2.clone()],
+                        x => panic!("field {}", x),
+                    }
+                    rt("Transaction", &cls, &tx, out);
+                    rt("TxIn", &cls, &tx.input[0], out);
+                    rt("TxOut", &cls, &tx.output[0], out);
+                    rt("TxInWitness", &cls, &tx.input[0].witness, out);
+                    rt("Script", &cls, &Script::from(b.clone()), out);
+                }
+                "Params.Full" | "Params.Compact" | "ExtData.Proof" | "ExtData.Dynafed" => {
+                    let mut full = FullParams::new(Script::from(vec![0x51]), 100, elements::bitcoin::ScriptBuf::from(vec![0x00, 0x14, 1, 2]), vec![0x52], vec![vec![2; 33]]);
+                    let mut compact = Params::Compact { signblockscript: Script::from(vec![0x51]), signblock_witness_limit: 7, elided_root: elements::dynafed::ElidedRoot::from_byte_array(pools::bytes32(&mut r)) };
+                    let mut ext = BlockExtData::Proof { challenge: Script::from(vec![0x51]), solution: Script::new() };
+                    let mut wit: Vec<Vec<u8>> = vec![];
+                    match (ty, field) {
+                        ("Params.Full", "signblockscript") => full = FullParams::new(Script::from(b.clone()), 100, elements::bitcoin::ScriptBuf::from(vec![0x00]), vec![0x52], vec![]),
+                        ("Params.Full", "fedpeg_program") => full = FullParams::new(Script::from(vec![0x51]), 100, elements::bitcoin::ScriptBuf::from(b.clone()), vec![0x52], vec![]),
+                        ("Params.Full", "fedpegscript") => full = FullParams::new(Script::from(vec![0x51]), 100, elements::bitcoin::ScriptBuf::from(vec![0x00]), b.clone(), vec![]),
+                        ("Params.Full", "extension_space") => full = FullParams::new(Script::from(vec![0x51]), 100, elements::bitcoin::ScriptBuf::from(vec![0x00]), vec![0x52], vec![b.clone(), vec![], b2.clone()]),
+                        ("Params.Compact", "signblockscript") => if let Params::Compact { signblockscript, .. } = &mut compact { *signblockscript = Script::from(b.clone()); },
+                        ("ExtData.Proof", "challenge") => ext = BlockExtData::Proof { challenge: Script::from(b.clone()), solution: Script::new() },
+                        ("ExtData.Proof", "solution") => ext = BlockExtData::Proof { challenge: Script::from(vec![0x51]), solution: Script::from(b.clone()) },
+                        ("ExtData.Dynafed", "signblock_witness") => wit = vec![b.clone(), vec![], b2.clone()],
+                        x => panic!("field {:?}", x),
+                    }
+                    let pfull = Params::Full(full);
+                    rt("dynafed::Params", &cls, &pfull, out);
+                    rt("dynafed::Params", &cls, &compact, out);
+                    rt("BlockExtData", &cls, &ext, out);
+                    let dyn_ext = BlockExtData::Dynafed { current: pfull.clone(), proposed: compact.clone(), signblock_witness: wit };
+                    rt("BlockExtData", &cls, &dyn_ext, out);
+                    for e in [ext, dyn_ext] {
+                        let h = BlockHeader { version: 0x2000_0000, prev_blockhash: elements::BlockHash::from_byte_array(pools::bytes32(&mut r)), merkle_root: elements::TxMerkleNode::from_byte_array(pools::bytes32(&mut r)), time: 7, height: 9, ext: e };
+                        rt("BlockHeader", &cls, &h, out);
+                    }
+                }
+                _ => {
+                    let mut p = elements::pset::PartiallySignedTransaction::new_v2();
+                    p.add_input(psetbuild::base_input(&mut r, 0));
+                    p.add_output(psetbuild::base_output(&mut r, "explicit"));
+                    let raw_key = elements::pset::raw::Key { type_value: 0x7e, key: b2.clone() };
+                    let prop_key = elements::pset::raw::ProprietaryKey { prefix: b2.clone(), subtype: 3u8, key: b.clone() };
+                    match (ty, field) {
+                        ("pset::Input", "redeem_script") => p.inputs_mut()[0].redeem_script = Some(Script::from(b.clone())),
+                        ("pset::Input", "final_script_witness") => p.inputs_mut()[0].final_script_witness = Some(vec![b.clone(), vec![], b2.clone()]),
+                        ("pset::Input", "unknown") => { p.inputs_mut()[0].unknown.insert(raw_key, b.clone()); }
+                        ("pset::Input", "proprietary") => { p.inputs_mut()[0].proprietary.insert(prop_key, b.clone()); }
+                        ("pset::Output", "script_pubkey") => p.outputs_mut()[0].script_pubkey = Script::from(b.clone()),
+                        ("pset::Global", "unknown") => { p.global.unknown.insert(raw_key, b.clone()); }
+                        ("pset::Global", "proprietary") => { p.global.proprietary.insert(prop_key, b.clone()); }
+                        x => panic!("field {:?}", x),
+                    }
+                    rt("PartiallySignedTransaction", &cls, &p, out);
+                    rt("pset::Input", &cls, &p.inputs()[0], out);
+                    rt("pset::Output", &cls, &p.outputs()[0], out);
+                    strtab("PartiallySignedTransaction(base64)", &p, None, out);
+                }
+            }
+        }
+    }
+    out.sample(json!({"content_cases": cases.len(), "variants_per_case": 4}));
+}
+
 fn r_u64(r: &mut Rng) -> u64 { use rand::RngCore; r.next_u64() >> 11 }
